@@ -91,7 +91,7 @@ func (p *ctrReader) Read(b []byte) (int, error) {
 
 func main() {
 	r = vk.New("exploration")
-	r.SetBudget(240*time.Second, 25*time.Minute)
+	r.SetBudget(400*time.Second, 25*time.Minute)
 	if *workerFlag != "" {
 		armorWorker(*workerFlag)
 	}
